@@ -7,7 +7,11 @@ from harness import worlds
 
 PROP = "C02"
 LEAN_MODULE = "Ztr.Props.C02"
-THEOREMS = ['Ztr.Runner.C02_verdict', 'Ztr.Runner.C02_tearDown_outcomes', 'Ztr.Runner.C02_child_channel', 'Ztr.Channel.C07_truncation', 'Ztr.Channel.C07_spawn_failure']
+THEOREMS = ['Ztr.Runner.C02_run_verdict', 'Ztr.Runner.C02_verdict_iff_trace', 'Ztr.Runner.child_bad_iff_trace',
+            'Ztr.Runner.counted_finalState', 'Ztr.Runner.C02_verdict', 'Ztr.Runner.C02_tearDown_outcomes',
+            'Ztr.Runner.C02_notImplemented_is_not_an_error', 'Ztr.Runner.C02_child_channel',
+            'Ztr.Channel.C07_truncation', 'Ztr.Channel.C07_spawn_failure', 'Ztr.Channel.C07_never_crash',
+            'Ztr.Channel.C07_roundtrip']
 RULE = ("worlds with bad outcomes of every kind placed at random (tests, layer setUp/tearDown failures, import "
         "errors, NotImplementedError tear-downs that are not errors), run in-process / with resumed children / -j N; "
         "children that die (os._exit(0), os._exit(3), SIGKILL, SIGSEGV) in a test phase or in a layer hook; tests that "
